@@ -121,6 +121,20 @@ def gen_enum(e):
         w('\tverifAssert(d.UnmarshalText([]byte("%s | NOT_A_LABEL")) != nil, "C19/junk-in-combination-rejected")' % (flags[0][0] if flags else 'X'))
         w('\tverifAssert(d.UnmarshalText([]byte("")) != nil, "C19/empty-rejected")')
         f0 = flags[0][0] if flags else '1'
+        w('\tverifAssert(d.UnmarshalText([]byte("NOT_A_LABEL | %s")) != nil, "C19/junk-first-in-combination-rejected")' % f0)
+        # every defined flag at once (the longest text), and all but the first / the last one
+        allv = 0
+        for _n, _v in flags:
+            allv |= _v
+        combos = [allv] + ([allv & ~flags[0][1], allv & ~flags[-1][1]] if len(flags) > 1 else [])
+        for ci, cv in enumerate(combos):
+            w('\t{')
+            w('\t\te := %s(%d)' % (T, cv))
+            w('\t\ttxt, err := e.MarshalText()')
+            w('\t\tverifAssert(err == nil, "C19/marshal-ok")')
+            w('\t\td2 := %s(verifNondetU64())' % T)
+            w('\t\tverifAssert(d2.UnmarshalText(txt) == nil && d2 == e, "C19/all-flags-round-trip")')
+            w('\t}')
         w('\tverifAssert(d.UnmarshalText([]byte(" | ")) != nil, "C19/empty-segments-rejected")')
         w('\tverifAssert(d.UnmarshalText([]byte("%s | ")) != nil, "C19/trailing-empty-segment-rejected")' % f0)
         w('\tverifAssert(d.UnmarshalText([]byte(" | %s")) != nil, "C19/leading-empty-segment-rejected")' % f0)
